@@ -2385,6 +2385,115 @@ impl World {
 }
 
 // ================================================================================================
+// C18 / C04: close_position_with_token_extensions on an UNLOCKED Token-2022 position
+//   H xclose22 <id> <authMode 0 owner | 1 stranger | 2 owner not signing>
+// The position is first opened by the real open_position_with_token_extensions (so that its mint carries what that
+// instruction gives it: close authority, freeze authority, ...), then given the state of history position <id>
+// (liquidity, owed fees, owed rewards), then closed.  Expected: success exactly for an EMPTY position closed by its
+// owner; afterwards position, token account and mint are gone and the rent went to the receiver.
+// ================================================================================================
+impl World {
+    pub fn x_close22(&self, t: &[&str]) -> XHopOut {
+        use anchor_lang::ToAccountMetas;
+        let mut viols = vec![];
+        let mut tags: Vec<&'static str> = vec![];
+        let id: u32 = t[2].parse().unwrap();
+        let auth_mode: u8 = t[3].parse().unwrap();
+        let pos0 = match self.pos(id) {
+            Some(p) => p,
+            None => return XHopOut { line: "err NoSuchPosition".to_string(), viols, tags },
+        };
+        let base = crate::hist_oracle::clone_world(self);
+        let mut fx = Fx::from_world(&base, None, None, false, false, 1_000);
+        let t22 = anchor_spl::token_2022::ID;
+        let pmint = k(0x6A, id as u8);
+        let (position, _bump) = Pubkey::find_program_address(&[b"position", pmint.as_ref()], &::whirlpool::ID);
+        let owner = fx.trader;
+        let stranger = k(0x63, 9);
+        let ata = Pubkey::find_program_address(&[owner.as_ref(), t22.as_ref(), pmint.as_ref()], &anchor_spl::associated_token::ID).0;
+        let sysid = crate::svm::system_id();
+        fx.bank.set(fx.trader, sysid, 10_000_000_000, vec![]);
+        fx.bank.set(stranger, sysid, 1_000_000_000, vec![]);
+        fx.bank.set_program(sysid);
+        fx.bank.set_program(anchor_spl::associated_token::ID);
+        let upd_auth = ::whirlpool::constants::nft::whirlpool_nft_update_auth::ID;
+        fx.bank.set(upd_auth, sysid, 1_000_000, vec![]);
+        // step 1: open over the history position's range
+        let acc = ::whirlpool::accounts::OpenPositionWithTokenExtensions {
+            funder: fx.trader,
+            owner,
+            position,
+            position_mint: pmint,
+            position_token_account: ata,
+            whirlpool: fx.pool,
+            token_2022_program: t22,
+            system_program: sysid,
+            associated_token_program: anchor_spl::associated_token::ID,
+            metadata_update_auth: upd_auth,
+        };
+        let metas: Vec<Meta> = acc.to_account_metas(None).iter().map(Meta::from).collect();
+        let data = ::whirlpool::instruction::OpenPositionWithTokenExtensions { tick_lower_index: pos0.tick_lower_index, tick_upper_index: pos0.tick_upper_index, with_token_metadata_extension: id % 2 == 0 }.data();
+        let (r1, o1) = fx.bank.execute(&metas, &data);
+        if let Err(e) = r1 {
+            return XHopOut { line: format!("skip open fails {}", err_name(&e, &o1.logs)), viols, tags: vec!["close22_open_failed"] };
+        }
+        // step 2: the history position's state in the new position account
+        {
+            let a = fx.bank.get(&position);
+            let mut pdata = base.positions[&id].clone();
+            pdata[8..40].copy_from_slice(fx.pool.as_ref());
+            pdata[40..72].copy_from_slice(pmint.as_ref());
+            pdata.resize(a.data.len(), 0);
+            fx.bank.set(position, a.owner, a.lamports, pdata);
+        }
+        let bank0 = fx.bank.clone();
+        let lam0 = fx.bank.get(&fx.trader).lamports;
+        // step 3: close
+        let signer_key = if auth_mode == 1 { stranger } else { fx.trader };
+        let a = ::whirlpool::accounts::ClosePositionWithTokenExtensions { position_authority: signer_key, receiver: fx.trader, position, position_mint: pmint, position_token_account: ata, token_2022_program: t22 };
+        let mut m2: Vec<Meta> = a.to_account_metas(None).iter().map(Meta::from).collect();
+        if auth_mode == 2 {
+            m2[0].signer = false;
+        }
+        let (res, out) = fx.bank.execute(&m2, &::whirlpool::instruction::ClosePositionWithTokenExtensions {}.data());
+        let empty = Position::is_position_empty(&pos0);
+        let line = match &res {
+            Err(e) => {
+                let name = err_name(e, &out.logs);
+                if fx.bank.accts != bank0.accts {
+                    viols.push("a failed close_position_with_token_extensions changed account state".to_string());
+                }
+                if auth_mode == 0 && empty {
+                    viols.push(format!("C18 close_position_with_token_extensions of an empty position by its owner fails with {}", name));
+                }
+                tags.push(if auth_mode != 0 { "close22_unauthorized_rejected" } else { "close22_not_empty_rejected" });
+                format!("err {}", name)
+            }
+            Ok(()) => {
+                if auth_mode != 0 {
+                    viols.push(format!("C04 close_position_with_token_extensions succeeded although the position's owner did not sign (mode {})", auth_mode));
+                }
+                if !empty {
+                    viols.push("C18 close_position_with_token_extensions closed a position that still holds liquidity, owed fees or owed rewards".to_string());
+                }
+                for (what, key) in [("position", position), ("position token account", ata), ("position mint", pmint)] {
+                    let acc = fx.bank.get(&key);
+                    if !(acc.lamports == 0 || acc.data.is_empty() || acc.owner == sysid) {
+                        viols.push(format!("C18 close_position_with_token_extensions left the {} open", what));
+                    }
+                }
+                if fx.bank.get(&fx.trader).lamports <= lam0 {
+                    viols.push("C18 close_position_with_token_extensions did not return the rent to the receiver".to_string());
+                }
+                tags.push("close22_ok");
+                "ok".to_string()
+            }
+        };
+        XHopOut { line, viols, tags }
+    }
+}
+
+// ================================================================================================
 // C18 / C04: locking — lock_position, then one follow-up instruction on the locked position
 //   H xlock <id> <authMode> <follow none|dec|close|reset|repo|inc|cf|xfer|lock2>
 // The position token is a Token-2022 token whose mint's freeze authority is the position PDA (what
